@@ -561,7 +561,10 @@ def gen_cases(ctx, only=None):
 
             if k % 3 == 0 and t:
                 # characters SASLprep maps: soft hyphen / ZWSP vanish, NBSP and IDEOGRAPHIC SPACE become SPACE, NFKC folds compatibility forms
-                ins = rng.choice(["\u00ad", "\u200b", "\u00a0", "\u3000", "\u00aa", "\u2168", "\ufb01", "\uff21", "e\u0301", "\u1e9b\u0323"])
+                # … and sequences on which the ORDER of the two steps shows: a character that is mapped to nothing between a base letter and its
+                # combining mark (map first: they compose), between Hangul jamo, or a space that only appears after mapping
+                ins = rng.choice(["\u00ad", "\u200b", "\u00a0", "\u3000", "\u00aa", "\u2168", "\ufb01", "\uff21", "e\u0301", "\u1e9b\u0323",
+                                  "e\u00ad\u0301", "a\u200d\u030a", "o\ufe0f\u0308", "\u1100\u200b\u1161", "\u1100\u1161\u00ad\u11a8", "c\u2060\u0327", "I\u200c\u0307"])
                 pos = rng.randrange(len(t) + 1)
                 raw = t[:pos] + ins + t[pos:]
                 t = py_saslprep(raw)
@@ -924,6 +927,15 @@ def third_party(ctx):
         uu = u.replace(":", "_")
         yield from both("hashlib:htdigest", H.htdigest, t, hashlib.md5(f"{uu}:{realm}:{t}".encode()).hexdigest(), lambda: H.htdigest.hash(t, user=uu, realm=realm), {"fmt": "htdigest", "text": t, "user": uu, "realm": realm},
                         user=uu, realm=realm)
+        # … and in the site's own charset (`encoding=`): user, realm AND password are that charset's bytes (RFC 2617 hashes octets)
+        for enc in ("latin-1", "cp1252", "koi8-r", "utf-16-le")[k % 4:k % 4 + 1]:
+            tt = {"latin-1": "p\u00e4ss\u00f8rd\u00ff", "cp1252": "\u20acuro\u2122", "koi8-r": "\u043f\u0430\u0440\u043e\u043b\u044c", "utf-16-le": "p\u00e4ss"}[enc] + t[:k % 5].encode("ascii", "ignore").decode()
+            ue, re_ = {"latin-1": ("\u00fcser", "r\u00e9alm"), "cp1252": ("us\u0153r", "realm"), "koi8-r": ("\u044e\u0437\u0435\u0440", "realm"), "utf-16-le": ("user", "realm")}[enc]
+            if enc == "utf-16-le":
+                continue        # not an ASCII-compatible charset: out of the format's domain
+            theirs = hashlib.md5(ue.encode(enc) + b":" + re_.encode(enc) + b":" + tt.encode(enc)).hexdigest()
+            yield from both("hashlib:htdigest-encoding", H.htdigest, tt, theirs, lambda: H.htdigest.hash(tt, user=ue, realm=re_, encoding=enc),
+                            {"fmt": "htdigest", "text": tt, "user": ue, "realm": re_, "encoding": enc}, user=ue, realm=re_, encoding=enc)
         r = [1, 2, 3, 64][k % 4]
         for v, dg in ((0, "sha1"), (1, "sha256"), (2, "sha384"), (3, "sha512")):
             d = hashlib.new(dg, s + p).digest()
